@@ -19,8 +19,8 @@ RULE = ("pairs of real wormholes through the real server (bridging server when a
         "exchanged PAKE messages (or, for never-met, both closed Lonely); distinct = (class, entry "
         "mode, codes, appids).")
 ASSUMPTIONS = ["codes <= 60 chars, <= 6 words; BMP plus a few astral characters"]
-FLOORS = {"quick": {"match_cases": 100, "mismatch_cases": 150, "pake_before_code": 10, "derive_checks": 1000, "bystander_pairs": 100},
-          "thorough": {"match_cases": 4000, "mismatch_cases": 6000, "pake_before_code": 400, "derive_checks": 40000, "bystander_pairs": 4000}}
+FLOORS = {"quick": {"match_cases": 100, "mismatch_cases": 150, "pake_before_code": 10, "derive_checks": 1000, "bystander_pairs": 100, "derive_in_key_notification": 80},
+          "thorough": {"match_cases": 4000, "mismatch_cases": 6000, "pake_before_code": 400, "derive_checks": 40000, "bystander_pairs": 4000, "derive_in_key_notification": 3000}}
 CLASSES = ["same", "same", "nfc", "nfc", "onechar", "case", "extraword", "missingword", "compat",
            "nameplate", "appid", "appid+same-nfc"]
 WORDS = ["café", "naïve", "purple", "sausages", "한글", "éclair", "ångström", "ǆemal",
@@ -99,6 +99,9 @@ def run_case(spec):
         cfg["dilation"] = True
         cfg["api_a"] = cfg["api_b"] = "deferred"
     drv = TwoParty(world, cfg)
+    for app in (drv.a, drv.b):
+        if rng.random() < 0.5:
+            app.derive_on_key = "vt/derived-in-the-key-notification"
     if dilated:
         for app in rng.choice([(drv.a,), (drv.b,), (drv.a, drv.b)]):
             try:
@@ -167,6 +170,7 @@ def run_case(spec):
     # derive_key sampling (before close)
     derive_checks = 0
     repeated = [0]
+    in_callback = [0]
     viol = []
 
     def wit():
@@ -188,6 +192,16 @@ def run_case(spec):
                 viol.append({"key": "C01/versions-wrong", "msg": "%r %r" % (drv.a.first("versions"), drv.b.first("versions")), "witness": wit()})
             if not drv.all_delivered():
                 viol.append({"key": "C01/match-messages-missing", "msg": "A got %d/%d, B got %d/%d" % (len(drv.a.msgs), len(drv.b.sent), len(drv.b.msgs), len(drv.a.sent)), "witness": wit()})
+            # a sub-key derived from inside the notification that announces the key (either API flavour)
+            for app in (drv.a, drv.b):
+                got = getattr(app, "derived_on_key", None)
+                if got is not None:
+                    in_callback[0] += 1
+                    if got[0] != "ok":
+                        viol.append({"key": "C01/derive_key-unavailable-in-key-notification/" + got[1],
+                                     "msg": "%s (%s API): derive_key() called from the key notification raised %s" % (app.name, app.api, got[1]), "witness": wit()})
+                    elif got[1] != drv.a.w.derive_key(app.derive_on_key, 32) or got[1] != drv.b.w.derive_key(app.derive_on_key, 32):
+                        viol.append({"key": "C01/derive_key-disagrees", "msg": "%s: the sub-key derived inside the key notification differs from later ones" % app.name, "witness": wit()})
             seen = {}
             for _ in range(12):
                 purpose = "".join(chr(rng.choice([rng.randint(0x20, 0x7e), rng.randint(0xa0, 0x2fff), rng.randint(0x1f300, 0x1f5ff)]))
@@ -263,7 +277,7 @@ def run_case(spec):
     s01 = int(any(k[1] == "S01" and k[2] == "got_code" for k in MON.cov))   # Key really went S00->S01->S11
     return {"violations": viol, "nontrivial": nontrivial,
             "counters": {"match_cases": int(expect_match), "mismatch_cases": int(not expect_match and met),
-                         "never_met_cases": int(not met), "pake_before_code": s01, "derive_checks": derive_checks, "derive_repeated_purpose": repeated[0],
+                         "never_met_cases": int(not met), "pake_before_code": s01, "derive_checks": derive_checks, "derive_repeated_purpose": repeated[0], "derive_in_key_notification": in_callback[0],
                          "class_" + kind: 1, "bystander_pairs": int(by is not None), "dilated_cases": int(dilated)},
             "sample": {"spec": spec, "code_a": code_a, "code_b": code_b, "appid_a": appid_a, "appid_b": appid_b,
                        "expect_match": expect_match, "b_mode": b_mode, "late_words": late_words,
